@@ -400,7 +400,10 @@ func checkV1Fields(ts uint64, cseq uint16, node [6]byte, viaSetters bool, tag st
 			case !bytes.Equal(m[0:8], want[0:8]):
 				cls += ":time"
 			case !bytes.Equal(m[8:10], want[8:10]):
-				cls += ":clock_seq" + hi
+				cls += ":clock_seq"
+				if hi != "" && m[8] == want[8]&^0x30 && m[9] == want[9] {
+					cls += hi // exactly the two high clock-sequence bits are missing, nothing else
+				}
 			default:
 				cls += ":node"
 			}
@@ -416,6 +419,9 @@ func checkV1Fields(ts uint64, cseq uint16, node [6]byte, viaSetters bool, tag st
 			r.Violation("uuid_v1.roundtrip:field:time", fmt.Sprintf("time %#x -> %s -> %#x", ts, canonUUID(m), p.Time), cs)
 		}
 		if p.ClockSeq != cseq {
+			if p.ClockSeq != cseq&0x0FFF {
+				hi = ""
+			}
 			r.Violation("uuid_v1.roundtrip:field:clock_seq"+hi, fmt.Sprintf("clock_seq %#x -> %s -> %#x", cseq, canonUUID(m), p.ClockSeq), cs)
 		}
 		if p.NodeID != node {
